@@ -459,6 +459,243 @@ fn macro_header_case(scratch: &Scratch, case: &str, defs: &[(String, E)], optset
     }
 }
 
+
+// ---------------------------------------------------------------- enums
+
+#[derive(Clone, Debug)]
+struct EnumDecl { name: Option<String>, scoped: bool, fixed: Option<CTy>, under: CTy, variants: Vec<(String, Option<String>, i128)> }
+
+const STYLES: [&str; 7] = ["consts", "moduleconsts", "newtype", "bitfield", "newtype_global", "rust", "rust_non_exhaustive"];
+
+/// clang's choice of the underlying type of an enum without a fixed type (Sema::ActOnEnumBody)
+fn clang_underlying(vals: &[i128]) -> CTy {
+    let neg = vals.iter().any(|v| *v < 0);
+    if !neg {
+        if vals.iter().all(|v| *v <= u32::MAX as i128) { CTy::UInt } else { CTy::ULong }
+    } else if vals.iter().all(|v| CTy::Int.holds(*v)) { CTy::Int } else { CTy::Long }
+}
+
+fn gen_enum(r: &mut Rng, tag: &str, cxx: bool) -> EnumDecl {
+    let fixed = if cxx && r.chance(3, 5) { Some(*r.pick(&[CTy::Char, CTy::SChar, CTy::UChar, CTy::Short, CTy::UShort, CTy::Int, CTy::UInt, CTy::Long, CTy::ULong, CTy::LLong, CTy::ULLong])) } else { None };
+    let n = r.range(1, 7) as usize;
+    let allow_neg = r.chance(1, 2);
+    let wide = r.chance(1, 3);
+    let mut variants: Vec<(String, Option<String>, i128)> = vec![];
+    let mut prev: Option<i128> = None;
+    for i in 0..n {
+        let name = format!("k{tag}v{i}");
+        let range: (i128, i128) = match fixed { Some(t) => (t.lo(), t.hi()), None => if allow_neg { (i64::MIN as i128, i64::MAX as i128) } else { (0, u64::MAX as i128) } };
+        let explicit = prev.is_none() && r.chance(1, 2) || prev.is_some() && r.chance(3, 5) || prev.map_or(false, |p| p + 1 > range.1);
+        let (init, v) = if explicit {
+            let v: i128 = match r.below(8) {
+                0 if !variants.is_empty() => variants[r.below(variants.len() as u64) as usize].2,   // duplicate
+                1 => range.1,
+                2 => range.0,
+                3 if wide || fixed.is_some() => { let w = r.range(1, 64); let x = (r.next() as i128) & ((1i128 << w) - 1); if range.0 < 0 && r.chance(1, 2) { -x } else { x } }
+                4 if range.0 < 0 => -(r.below(200) as i128) - 1,
+                5 => *r.pick(&[0x7fff_ffffi128, 0x8000_0000, 0xffff_ffff, 0x1_0000_0000, 255, 256, 65535, 65536]),
+                _ => r.below(100) as i128,
+            };
+            let v = v.clamp(range.0, range.1);
+            let text = if v < 0 { if v == i64::MIN as i128 { "(-9223372036854775807LL - 1)".to_string() } else { format!("{v}") } }
+                       else if v > i64::MAX as i128 { format!("{v}ULL") } else if r.chance(1, 3) { format!("0x{v:x}") } else { format!("{v}") };
+            (Some(text), v)
+        } else { (None, prev.map_or(0, |p| p + 1)) };
+        variants.push((name, init, v));
+        prev = Some(v);
+    }
+    // an unfixed enum cannot mix negative values with values above i64::MAX
+    if fixed.is_none() && variants.iter().any(|v| v.2 < 0) && variants.iter().any(|v| v.2 > i64::MAX as i128) {
+        for v in variants.iter_mut() { if v.2 > i64::MAX as i128 { v.2 = 7; v.1 = Some("7".into()); } }
+        // implicit successors were computed from the old values: make everything explicit
+        let mut p: Option<i128> = None;
+        for v in variants.iter_mut() { if v.1.is_none() { let x = p.map_or(0, |q| q + 1); v.2 = x; } p = Some(v.2); }
+    }
+    let vals: Vec<i128> = variants.iter().map(|v| v.2).collect();
+    let under = fixed.unwrap_or_else(|| clang_underlying(&vals));
+    let named = r.chance(5, 6);
+    EnumDecl { name: if named { Some(format!("E{tag}")) } else { None }, scoped: cxx && named && fixed.is_some() && r.chance(1, 4), fixed, under, variants }
+}
+
+fn enum_text(e: &EnumDecl) -> String {
+    let mut s = String::from("enum ");
+    if e.scoped { s.push_str("class "); }
+    if let Some(n) = &e.name { s.push_str(n); s.push(' '); }
+    if let Some(t) = e.fixed { s.push_str(&format!(": {} ", t.c_name().replace("_Bool", "bool"))); }
+    s.push_str("{ ");
+    let vs: Vec<String> = e.variants.iter().map(|(n, init, _)| match init { Some(i) => format!("{n} = {i}"), None => n.clone() }).collect();
+    s.push_str(&vs.join(", "));
+    s.push_str(" };\n");
+    s
+}
+
+/// C / C++ probe: value of every enumerator, size and signedness of every named enum
+fn run_enum_probe(scratch: &Scratch, tag: &str, header: &str, enums: &[EnumDecl], cxx: bool) -> Result<(HashMap<String, i128>, HashMap<String, (u32, bool)>), String> {
+    let mut src = format!("#include <stdio.h>\n#include \"{header}\"\nint main(void) {{\n");
+    for e in enums {
+        for (v, _, _) in &e.variants {
+            let q = if e.scoped { format!("{}::{}", e.name.as_ref().unwrap(), v) } else { v.clone() };
+            let neg = if e.scoped { format!("({q} < ({})0)", e.name.as_ref().unwrap()) } else { format!("({q} < 0)") };
+            src.push_str(&format!("printf(\"V {v} %d %llu\\n\", (int){neg}, (unsigned long long){q});\n"));
+        }
+        if let Some(n) = &e.name {
+            if cxx {
+                src.push_str(&format!("printf(\"T {n} %d %d\\n\", (int)sizeof({n}), (int)((__underlying_type({n}))-1 < 0));\n"));
+            } else {
+                src.push_str(&format!("printf(\"T {n} %d %d\\n\", (int)sizeof(enum {n}), (int)((enum {n})-1 < 0));\n"));
+            }
+        }
+    }
+    src.push_str("return 0; }\n");
+    let f = scratch.path(&format!("{tag}.{}", if cxx { "cpp" } else { "c" }));
+    std::fs::write(&f, src).unwrap();
+    let exe = scratch.path(&format!("{tag}_e"));
+    let mut c = Command::new(if cxx { "clang++" } else { "clang" });
+    c.args([if cxx { "-std=c++14" } else { "-std=gnu11" }, "-w", "-O0", "-I"]).arg(&scratch.0).arg(&f).arg("-o").arg(&exe);
+    let (rc, _o, er) = run(&mut c);
+    if rc != 0 { return Err(format!("clang failed: {}", &er[..er.len().min(1500)])); }
+    let (rc, o, er) = run_exe(&exe);
+    if rc != 0 { return Err(format!("enum probe exited {rc}: {er}")); }
+    let mut vals = HashMap::new(); let mut tys = HashMap::new();
+    for l in o.lines() {
+        let p: Vec<&str> = l.split(' ').collect();
+        if p.len() == 4 && p[0] == "V" { let u: u64 = p[3].parse().unwrap_or(0); vals.insert(p[1].to_string(), if p[2] == "1" { u as i64 as i128 } else { u as i128 }); }
+        if p.len() == 4 && p[0] == "T" { tys.insert(p[1].to_string(), (p[2].parse().unwrap_or(0), p[3] == "1")); }
+    }
+    Ok((vals, tys))
+}
+
+/// where bindgen put an enumerator
+struct Found { lit: String, repr: String, type_name: String, probe: String }
+
+fn find_variant(inv: &Inventory, module: &str, v: &str) -> Result<Found, String> {
+    for (en, (repr, vs)) in &inv.enums {
+        if let Some((_, d)) = vs.iter().find(|(n, _)| n == v) {
+            let signed = repr.starts_with('i');
+            return Ok(Found { lit: format!("lit:{}", d.text()), repr: repr.clone(), type_name: en.clone(),
+                probe: format!("format!(\"i {{}} {{}} {}\", {module}::{en}::{v} as i128, std::mem::size_of::<{module}::{en}>())", signed as u8) });
+        }
+    }
+    let suffix = format!("_{v}");
+    let cands: Vec<&ConstItem> = inv.consts.iter().filter(|c| c.name == v || c.name.ends_with(&suffix)).collect();
+    if cands.len() != 1 { return Err(format!("{} constants match enumerator {v}", cands.len())); }
+    let c = cands[0];
+    let path = match c.ctx.split_once(' ') { Some((_, t)) => format!("{module}::{t}::{}", c.name), None => format!("{module}::{}", c.name) };
+    let ty_key = if c.ty == "Type" { format!("{}/Type", c.ctx) } else { format!("/{}", c.ty) };
+    match &c.val {
+        Val::Call(f, inner) => Ok(Found { lit: format!("lit:{}", inner.text()), repr: inv.newtypes.get(f).cloned().unwrap_or_default(), type_name: f.clone(), probe: format!("{path}.0.pv()") }),
+        Val::Path(p) => {
+            let en = &p[0];
+            let (repr, _) = inv.enums.get(en).cloned().unwrap_or_default();
+            let signed = repr.starts_with('i');
+            Ok(Found { lit: format!("alias:{}", p.last().unwrap()), repr, type_name: en.clone(),
+                probe: format!("format!(\"i {{}} {{}} {}\", {path} as i128, std::mem::size_of::<{module}::{en}>())", signed as u8) })
+        }
+        Val::Int(_) | Val::Bool(_) => Ok(Found { lit: format!("lit:{}", c.val.text()), repr: inv.aliases.get(&ty_key).cloned().unwrap_or_default(), type_name: c.ty.clone(), probe: format!("{path}.pv()") }),
+        o => Err(format!("unexpected value form for {v}: {o:?}")),
+    }
+}
+
+fn enum_section(scratch: &Scratch, r: &mut Rng, n_headers: usize, per: usize, all_combos: bool, rep: &mut Rep) {
+    for h in 0..n_headers {
+        let cxx = h % 2 == 1;
+        let case = format!("e{h}");
+        let enums: Vec<EnumDecl> = (0..per).map(|i| gen_enum(r, &format!("{h}x{i}"), cxx)).collect();
+        let text: String = enums.iter().map(enum_text).collect();
+        let hname = format!("{case}.{}", if cxx { "hpp" } else { "h" });
+        std::fs::write(scratch.path(&hname), &text).unwrap();
+        rep.inc("enum_headers"); rep.add("enums", enums.len() as u64);
+        for e in &enums {
+            rep.distinct.insert(format!("e:{}", enum_text(e)));
+            rep.inc(&format!("enum_underlying_{}", e.under.proto()));
+            if e.name.is_none() { rep.inc("enum_anonymous"); }
+            if e.scoped { rep.inc("enum_scoped"); }
+            let mut seen = HashSet::new();
+            for v in &e.variants { if !seen.insert(v.2) { rep.inc("enum_duplicate_values"); } if v.2 < 0 { rep.inc("enum_negative_values"); } if v.2 > u32::MAX as i128 || v.2 < i32::MIN as i128 { rep.inc("enum_beyond_32bit_values"); } if v.1.is_none() { rep.inc("enum_implicit_values"); } }
+        }
+        let (cvals, ctys) = match run_enum_probe(scratch, &format!("{case}_probe"), &hname, &enums, cxx) { Ok(v) => v, Err(e) => { rep.machinery.push(format!("{case}: {e}")); continue; } };
+        // generator's own expectation vs the C compiler (validates the underlying-type rule and implicit values)
+        for e in &enums {
+            for (v, _, val) in &e.variants {
+                rep.inc("c_model_vs_clang_compared");
+                if cvals.get(v) != Some(val) { push_cap(&mut rep.cmodel_failures, J::obj(vec![("enum", J::s(enum_text(e))), ("name", J::s(v)), ("generator", J::s(format!("{val}"))), ("clang", J::s(format!("{:?}", cvals.get(v))))])); }
+            }
+            if let Some(n) = &e.name {
+                let want = (e.under.bits() / 8, e.under.signed());
+                if ctys.get(n) != Some(&want) { push_cap(&mut rep.cmodel_failures, J::obj(vec![("enum", J::s(enum_text(e))), ("generator_underlying", J::s(e.under.c_name())), ("clang_size_signed", J::s(format!("{:?}", ctys.get(n))))])); }
+            }
+        }
+        // option combinations
+        let mut combos: Vec<(&str, bool, bool)> = vec![];
+        for st in STYLES { for tr in [false, true] { for noprep in [false, true] { combos.push((st, tr, noprep)); } } }
+        if !all_combos {
+            // every style x translate once, prepend alternating
+            combos = combos.into_iter().enumerate().filter(|(i, c)| (c.2 as usize) == (i / 2 + h) % 2).map(|(_, c)| c).collect();
+        }
+        let mut mods: Vec<(String, String, Vec<(String, String)>)> = vec![];
+        let mut expect: Vec<(String, String)> = vec![]; // (module/variant, enum name or "")
+        for (st, tr, noprep) in &combos {
+            let module = format!("{}_{}{}", st, if *tr { "t" } else { "c" }, if *noprep { "n" } else { "p" });
+            let mut flags: Vec<&str> = vec!["--default-enum-style", st, "--no-layout-tests"];
+            if *tr { flags.push("--translate-enum-integer-types"); }
+            if *noprep { flags.push("--no-prepend-enum-name"); }
+            let clang: Vec<&str> = if cxx { vec!["-x", "c++", "-std=c++14"] } else { vec![] };
+            let out = generate_text(scratch, &hname, &text, &flags, &clang, false);
+            rep.inc("bindgen_runs");
+            let Some(b) = out.bindings else { push_cap(&mut rep.corr_failures, J::obj(vec![("header", J::s(&text)), ("options", J::s(&module)), ("implementation", J::s(format!("{:?} {:?}", out.error, out.panic)))])); continue; };
+            let inv = match inventory(&b) { Ok(i) => i, Err(e) => { rep.machinery.push(format!("{case}: {e}")); continue; } };
+            // model
+            let reqs: Vec<String> = enums.iter().map(|e| {
+                let mut l = format!("c05 e style={st} tr={} ty={}", *tr as u8, e.under.proto());
+                for (v, _, val) in &e.variants { l.push_str(&format!(" {v}={val}")); }
+                l
+            }).collect();
+            let answers = model(&reqs);
+            let mut exprs = vec![];
+            for (e, ans) in enums.iter().zip(answers.iter()) {
+                let toks: Vec<&str> = ans.split(' ').collect();
+                let model_repr = toks[0].strip_prefix("repr=").unwrap_or("?").split(',').next().unwrap_or("?").to_string();
+                for (i, (v, _, _)) in e.variants.iter().enumerate() {
+                    rep.inc("correspondence_compared"); rep.inc("enum_variants_compared");
+                    let want = toks.get(i + 1).and_then(|t| t.split_once('=')).map(|(_, x)| x.to_string()).unwrap_or_default();
+                    match find_variant(&inv, &module, v) {
+                        Ok(f) => {
+                            if f.lit != want || f.repr != model_repr {
+                                push_cap(&mut rep.corr_failures, J::obj(vec![("enum", J::s(enum_text(e))), ("options", J::s(&module)), ("name", J::s(v)),
+                                    ("implementation", J::s(format!("{} repr={}", f.lit, f.repr))), ("model", J::s(format!("{want} repr={model_repr}")))]));
+                            }
+                            let _ = &f.type_name;
+                            exprs.push((v.clone(), f.probe));
+                            expect.push((format!("{module}/{v}"), e.name.clone().unwrap_or_default()));
+                        }
+                        Err(er) => push_cap(&mut rep.corr_failures, J::obj(vec![("enum", J::s(enum_text(e))), ("options", J::s(&module)), ("name", J::s(v)), ("implementation", J::s(er)), ("model", J::s(want))])),
+                    }
+                }
+            }
+            mods.push((module, b, exprs));
+        }
+        let rvals = match run_rust_probe(scratch, &format!("{case}_rs"), &mods) {
+            Ok(v) => v,
+            Err(e) => { push_cap(&mut rep.oracle_failures, J::obj(vec![("header", J::s(&text)), ("what", J::s("emitted enum bindings rejected by rustc")), ("rustc", J::s(e))])); continue; }
+        };
+        let by_variant: HashMap<&str, &EnumDecl> = enums.iter().flat_map(|e| e.variants.iter().map(move |v| (v.0.as_str(), e))).collect();
+        for (key, _en) in &expect {
+            rep.inc("oracle_compared");
+            let v = key.split('/').nth(1).unwrap();
+            let e = by_variant[v];
+            let (Some(cv), Some(rv)) = (cvals.get(v), rvals.get(key)) else { rep.machinery.push(format!("{case}: no probe value for {key}")); continue; };
+            let (csize, csigned) = e.name.as_ref().and_then(|n| ctys.get(n)).copied().unwrap_or((e.under.bits() / 8, e.under.signed()));
+            let ok = matches!(rv, RV::Int { v: x, size, signed } if x == cv && *size == csize && *signed == csigned);
+            if ok { rep.inc("oracle_agree"); }
+            else { push_cap(&mut rep.oracle_failures, J::obj(vec![("enum", J::s(enum_text(e))), ("options", J::s(key.split('/').next().unwrap())), ("name", J::s(v)), ("rust_value", J::s(rv_text(rv))), ("c_value", J::s(format!("{cv} in a {csize}-byte {} type", if csigned { "signed" } else { "unsigned" })))])); }
+            if rep.samples.len() < 10 && key.ends_with("v0") && key.starts_with("rust_c") && rep.counts.get("enum_samples").copied().unwrap_or(0) < 2 {
+                rep.inc("enum_samples");
+                rep.samples.push(J::obj(vec![("kind", J::s("enum")), ("declaration", J::s(enum_text(e))), ("options", J::s(key.split('/').next().unwrap())), ("enumerator", J::s(v)), ("clang", J::s(format!("{cv} size {csize} signed {csigned}"))), ("rust_probe", J::s(rv_text(rv)))]));
+            }
+        }
+    }
+}
+
 // ---------------------------------------------------------------- const variables
 
 fn var_section(scratch: &Scratch, r: &mut Rng, n_headers: usize, per: usize, rep: &mut Rep) {
@@ -623,6 +860,9 @@ fn main() {
         let defs = build_header(&mut r, per_header, &mut rep);
         macro_header_case(&scratch, &format!("m{h}"), &defs, &all_sets(), &mut rep);
     }
+    let (eh, eper) = if thorough { (40, 120) } else { (4, 50) };
+    let mut r = rng.fork();
+    enum_section(&scratch, &mut r, eh, eper, thorough, &mut rep);
     let (vh, vper) = if thorough { (12, 420) } else { (2, 150) };
     let mut r = rng.fork();
     var_section(&scratch, &mut r, vh, vper, &mut rep);
